@@ -16,8 +16,13 @@ def sig_of(rej, scn):
         # one transport effect, whatever it does to the cell: a cluster delivered to the emulator in two reads
         return "C12:emulator-cells:cut-cluster"
     kind = (scn.get("desc") or {}).get("Kind")
+    if kind == "wideglyph" and "grapheme" in fields:
+        # a displaced row: which style fields differ as well depends on the neighbours, not on the defect
+        fields = ["grapheme"]
+    elif kind == "wideglyph" and "width" in fields:
+        fields = ["width"]
     # the families of this check name themselves; the C01 families keep the plain signature
-    tail = ":" + kind if kind in ("neighbours", "bigframe") else ""
+    tail = ":" + kind if kind in ("neighbours", "bigframe", "wideglyph") else ""
     return "C12:%s:%s%s" % (why, "+".join(fields), tail)
 
 
@@ -59,6 +64,9 @@ def main(c):
         "transport: each write of the application reaches the emulator's parser in reads of at most 4096 bytes; a grapheme cluster "
         "that straddles the end of a read is a logged fact, and differences at and to the right of such a cluster in its row are "
         "classified apart (signature C12:emulator-cells:cut-cluster)",
+        "a terminal (the emulator, the host's, the reference) gives a grapheme cluster one column or two: the logged terminal width of a "
+        "cluster is the Unicode width cut at two (U+2E3A / U+2E3B measure 3 / 4 in the width table the harness uses); a cell whose "
+        "explicit width is not the width the terminal gives its text is outside the domain, as in C01",
     ]
     if not c.replay:
         # the oracle's own structural sanity (shared with C01)
@@ -89,5 +97,8 @@ def main(c):
              "screen after Draw; plus: runs of neighbouring cells whose texts have no grapheme cluster boundary between them (13 pairs "
              "over the UAX #29 joining rules, fixed and random histories), screens whose first frame is longer than one read of the "
              "emulator's parser (combining sequences, ZWJ sequences, single-code-point content under changing styles, mixed content), "
-             "pictures of few and many colours drawn with the graphics protocol derived from the emulator's replies; "
+             "pictures of few and many colours drawn with the graphics protocol derived from the emulator's replies; rows holding "
+             "characters a typesetting width table gives 3 or 4 columns (U+2E3A, U+2E3B) followed by other cells: set at the terminal's "
+             "columns (width left to the library / given), laid out by the application from the widths the library reports "
+             "(RenderedWidth, Characters, NewStyledString), printed as text, overwritten in later frames, fixed and random histories; "
              "distinct = distinct descriptor")
